@@ -91,6 +91,9 @@ impl Sandbox {
             std::env::temp_dir()
         };
         let n = COUNTER.fetch_add(1, std::sync::atomic::Ordering::SeqCst);
+        if n == 0 {
+            reap_stale_sandboxes(&base);
+        }
         let root = base.join(format!("verif.{}.{}.{}", std::process::id(), tag, n));
         let _ = std::fs::remove_dir_all(&root);
         std::fs::create_dir_all(&root).expect("sandbox");
@@ -101,8 +104,37 @@ impl Sandbox {
     }
 }
 
+/// Sandboxes of harness processes that no longer exist (killed by a timeout): unmount what they mounted, remove them.
+fn reap_stale_sandboxes(base: &Path) {
+    let prefix = base.join("verif.");
+    let prefix = prefix.to_string_lossy().into_owned();
+    let alive = |root: &str| -> bool {
+        root[prefix.len()..].split('.').next().and_then(|p| p.parse::<u32>().ok()).map(|p| Path::new(&format!("/proc/{}", p)).exists()).unwrap_or(true)
+    };
+    if let Ok(m) = std::fs::read_to_string("/proc/mounts") {
+        let mut points: Vec<String> = m.lines().filter_map(|l| l.split(' ').nth(1)).filter(|p| p.starts_with(&prefix) && !alive(p)).map(|p| p.replace("\\040", " ")).collect();
+        points.sort_by_key(|p| std::cmp::Reverse(p.len()));
+        for p in points {
+            if let Ok(c) = std::ffi::CString::new(p) {
+                unsafe { libc::umount2(c.as_ptr(), libc::MNT_DETACH) };
+            }
+        }
+    }
+    if let Ok(rd) = std::fs::read_dir(base) {
+        for e in rd.flatten() {
+            let p = e.path();
+            let ps = p.to_string_lossy().into_owned();
+            if ps.starts_with(&prefix) && !alive(&ps) {
+                let _ = std::process::Command::new("chmod").arg("-R").arg("u+rwx").arg(&p).stderr(std::process::Stdio::null()).status();
+                let _ = std::fs::remove_dir_all(&p);
+            }
+        }
+    }
+}
+
 impl Drop for Sandbox {
     fn drop(&mut self) {
+        crate::tree::unmount_below(&self.root);
         // make everything removable again
         let _ = std::process::Command::new("chmod")
             .arg("-R")
